@@ -15,7 +15,7 @@ Import ListNotations.
    quadratic_componentwise_simultaneous_refuted_example in Proofs/RootsRoundEx.v (b = 0: the two returned values do not sum to 0). *)
 From Coq Require Import Reals.
 From Coquelicot Require Import Complex.
-From OV Require Import Proofs.RootsRound Proofs.RootsRoundEx.
+From OV Require Import Proofs.RootsRound Proofs.RootsRoundEx Proofs.RootsRoundFwd.
 
 (* degree 1: the returned value is the exact root of c1 x + c0 (1 + d), |d| <= eps (one negation, exact; one division) *)
 Theorem linear_root_backward_error : forall (eps : R) (O : RoundOps) (c0 c1 : C),
@@ -126,3 +126,58 @@ Example quadratic_componentwise_simultaneous_refuted_example :
     forall a' c' : C, a' <> RtoC 0 ->
       ~ ((a' * r0 * r0 + RtoC 0 * r0 + c')%C = RtoC 0 /\ (a' * r1 * r1 + RtoC 0 * r1 + c')%C = RtoC 0).
 Proof. exact quadratic_componentwise_simultaneous_refuted_1024. Qed.
+
+(* ---- forward error (Proofs/RootsRoundFwd.v).  o_sh O a b c is the value Complex::sqrt returned for the COMPUTED discriminant,
+   qdisc a b c = b*b - a*4*c the exact one.  GIVEN an accurate discriminant -- |sh^2 - disc| <= eta |disc|; the discriminant may
+   suffer cancellation (b^2 ~ 4ac), then eta is not O(eps) and the hypothesis says so -- both returned values have relative
+   error 6 eps + 2 eta with respect to the two exact roots (the textbook result for q = -(b + sgn sqrt(disc))/2, q/a, c/q) *)
+Theorem quadratic_forward_error : forall (eps : R) (O : RoundOps) (a b c : C) (eta : R),
+  (0 <= eps <= / 100)%R -> std_model eps O -> a <> RtoC 0 -> (0 <= eta <= / 6)%R ->
+  (Cmod (o_sh O a b c * o_sh O a b c - qdisc a b c)%C <= eta * Cmod (qdisc a b c))%R ->
+  exists r0 r1 x0 x1 : C, poly_solve (RoundRAo eps O) [c; b; a] false = Ok ([r0; r1], []) /\
+    (forall x : C, (a * x * x + b * x + c)%C = (a * (x - x0) * (x - x1))%C) /\
+    (Cmod (r0 - x0)%C <= (6 * eps + 2 * eta) * Cmod x0)%R /\ (Cmod (r1 - x1)%C <= (6 * eps + 2 * eta) * Cmod x1)%R.
+Proof. intros eps O a b c eta. exact (quadratic_forward_lemma eps O a b c eta). Qed.
+Check quadratic_forward_error : forall (eps : R) (O : RoundOps) (a b c : C) (eta : R),
+  (0 <= eps <= / 100)%R -> std_model eps O -> a <> RtoC 0 -> (0 <= eta <= / 6)%R ->
+  (Cmod (o_sh O a b c * o_sh O a b c - qdisc a b c)%C <= eta * Cmod (qdisc a b c))%R ->
+  exists r0 r1 x0 x1 : C, poly_solve (RoundRAo eps O) [c; b; a] false = Ok ([r0; r1], []) /\
+    (forall x : C, (a * x * x + b * x + c)%C = (a * (x - x0) * (x - x1))%C) /\
+    (Cmod (r0 - x0)%C <= (6 * eps + 2 * eta) * Cmod x0)%R /\ (Cmod (r1 - x1)%C <= (6 * eps + 2 * eta) * Cmod x1)%R.
+Print Assumptions quadratic_forward_error.
+Example quadratic_forward_error_nonvacuous :
+  (0 <= / 1024 <= / 100)%R /\ std_model (/ 1024) (pert_ops (/ 1024)) /\ RtoC 1 <> RtoC 0 /\ (0 <= 15.33 * / 1024 <= / 6)%R /\
+  disc_accurate (pert_ops (/ 1024)) (RtoC 1) (RtoC (-5)) (RtoC 2) (15.33 * / 1024).
+Proof. exact forward_nonvacuous. Qed.
+
+(* the discriminant IS accurate, with no hypothesis, when one of b^2, 4ac dominates the other by a factor 2 ... *)
+Theorem disc_accurate_dominant : forall (eps : R) (O : RoundOps) (a b c : C),
+  (0 <= eps <= / 100)%R -> std_model eps O ->
+  (8 * (Cmod a * Cmod c) <= Cmod b * Cmod b)%R \/ (2 * (Cmod b * Cmod b) <= 4 * (Cmod a * Cmod c))%R ->
+  (Cmod (o_sh O a b c * o_sh O a b c - qdisc a b c)%C <= 15.33 * eps * Cmod (qdisc a b c))%R.
+Proof. intros eps O a b c. exact (disc_accurate_dominant_lemma eps O a b c). Qed.
+Check disc_accurate_dominant : forall (eps : R) (O : RoundOps) (a b c : C),
+  (0 <= eps <= / 100)%R -> std_model eps O ->
+  (8 * (Cmod a * Cmod c) <= Cmod b * Cmod b)%R \/ (2 * (Cmod b * Cmod b) <= 4 * (Cmod a * Cmod c))%R ->
+  (Cmod (o_sh O a b c * o_sh O a b c - qdisc a b c)%C <= 15.33 * eps * Cmod (qdisc a b c))%R.
+Print Assumptions disc_accurate_dominant.
+
+(* ... and then both returned values have relative error 37 eps, unconditionally *)
+Theorem quadratic_forward_error_dominant : forall (eps : R) (O : RoundOps) (a b c : C),
+  (0 <= eps <= / 100)%R -> std_model eps O -> a <> RtoC 0 ->
+  (8 * (Cmod a * Cmod c) <= Cmod b * Cmod b)%R \/ (2 * (Cmod b * Cmod b) <= 4 * (Cmod a * Cmod c))%R ->
+  exists r0 r1 x0 x1 : C, poly_solve (RoundRAo eps O) [c; b; a] false = Ok ([r0; r1], []) /\
+    (forall x : C, (a * x * x + b * x + c)%C = (a * (x - x0) * (x - x1))%C) /\
+    (Cmod (r0 - x0)%C <= 37 * eps * Cmod x0)%R /\ (Cmod (r1 - x1)%C <= 37 * eps * Cmod x1)%R.
+Proof. intros eps O a b c. exact (quadratic_forward_dominant_lemma eps O a b c). Qed.
+Check quadratic_forward_error_dominant : forall (eps : R) (O : RoundOps) (a b c : C),
+  (0 <= eps <= / 100)%R -> std_model eps O -> a <> RtoC 0 ->
+  (8 * (Cmod a * Cmod c) <= Cmod b * Cmod b)%R \/ (2 * (Cmod b * Cmod b) <= 4 * (Cmod a * Cmod c))%R ->
+  exists r0 r1 x0 x1 : C, poly_solve (RoundRAo eps O) [c; b; a] false = Ok ([r0; r1], []) /\
+    (forall x : C, (a * x * x + b * x + c)%C = (a * (x - x0) * (x - x1))%C) /\
+    (Cmod (r0 - x0)%C <= 37 * eps * Cmod x0)%R /\ (Cmod (r1 - x1)%C <= 37 * eps * Cmod x1)%R.
+Print Assumptions quadratic_forward_error_dominant.
+(* x^2 - 5x + 2 in the perturbing arithmetic: b^2 = 25 >= 16 = 8|a||c| *)
+Example quadratic_forward_error_dominant_nonvacuous :
+  RtoC 1 <> RtoC 0 /\ (8 * (Cmod (RtoC 1) * Cmod (RtoC 2)) <= Cmod (RtoC (-5)) * Cmod (RtoC (-5)))%R.
+Proof. exact forward_dominant_nonvacuous. Qed.
